@@ -76,9 +76,23 @@ let check_line (l : string) : string =
   let where = Printf.sprintf "kind=%s maxpend=%d flushop=%b dupanswers=%d flushofflush=%d" hkind maxpend flushop ndup nff in
   (* requests some later Tflush names: they may legitimately stay unanswered *)
   let reqs = List.map (fun r ->
-      let fl = r.flushed || List.exists (fun f -> match f.kind with KFlush old -> int_of_n old = r.tag && f.rid > r.rid | _ -> false) reqs in
+      let fl = r.flushed || List.exists (fun f -> match f.kind with KFlush old -> int_of_n old = r.tag && f.rid <> r.rid | _ -> false) reqs in
       { r with flushed = fl }) reqs in
   let disconnected = List.exists (function LDisconnect -> true | _ -> false) labels in
+  (* replay through the LTS first: the oracles use it only to classify known findings *)
+  let cfgc = { maxpend = nat_of_int maxpend; has_flushop = flushop } in
+  let rec goreplay s i = function
+    | [] -> Stdlib.Ok s
+    | lb :: rest -> (match step cfgc s lb with Some s' -> goreplay s' (i + 1) rest | None -> Stdlib.Error (i, lb)) in
+  let replayed = goreplay init 0 labels in
+  (* flush requests whose chain of targets leads back to themselves *)
+  let in_cycle (f : int) : bool =
+    match replayed with
+    | Stdlib.Ok s ->
+      let target i = (match List.nth_opt s.r i with Some q -> (match q.q_target with Some t -> Some (int_of_nat t) | None -> None) | None -> None) in
+      let rec walk i k = if k = 0 then false else match target i with None -> false | Some t -> t = f || walk t (k - 1) in
+      walk f 20
+    | _ -> false in
   (* ---------------- oracles on the implementation's visible behaviour ---------------- *)
   let verdict = ref "OK" in
   let bad s = if !verdict = "OK" then verdict := s in
@@ -123,7 +137,7 @@ let check_line (l : string) : string =
         let oldi = int_of_n old in
         let fi = index_of (fun (x, _) -> x = f.tag) wire in
         if fi < 0 && not disconnected && not f.flushed then
-          bad (Printf.sprintf "ORACLE C07.tflush_not_answered tag=%d %s" f.tag where);
+          bad (Printf.sprintf "ORACLE C07.tflush_not_answered tag=%d %s flushcycle=%d" f.tag where (if in_cycle f.rid then 1 else 0));
         if fi >= 0 then begin
           (* the target: the newest earlier request with the old tag *)
           let cands = List.filter (fun r -> r.tag = oldi && r.rid < f.rid) reqs in
@@ -174,15 +188,8 @@ let check_line (l : string) : string =
   if !verdict <> "OK" then !verdict
   else begin
     (* ---------------- correspondence: replay the schedule through the LTS ---------------- *)
-    let c = { maxpend = nat_of_int maxpend; has_flushop = flushop } in
-    let rec go s i = function
-      | [] -> Stdlib.Ok s
-      | lb :: rest ->
-        (match step c s lb with
-         | Some s' -> go s' (i + 1) rest
-         | None -> Stdlib.Error (i, lb)) in
     if note <> "-" then Printf.sprintf "DIFF harness-note %s %s" note where
-    else match go init 0 labels with
+    else match replayed with
       | Stdlib.Error (i, lb) ->
         Printf.sprintf "DIFF label-not-enabled index=%d label=%s of %d %s" i (label_str lb) (List.length labels) where
       | Stdlib.Ok s ->
